@@ -11,6 +11,8 @@
 import json, os, subprocess, sys, shutil, time
 
 VERIF = os.path.dirname(os.path.dirname(os.path.abspath(__file__)))
+# SEED_DIR=refactors: the same tooling manages behaviour-preserving refactorings (expected: every check stays silent)
+SEEDED = os.environ.get("SEED_DIR", "seeded")
 REPO = "/repo"
 ENV = dict(os.environ, CARGO_NET_OFFLINE="true", CARGO_TERM_COLOR="never")
 
@@ -77,7 +79,7 @@ def confirm(wt, out):
 
 
 def do_import(out, name, prop):
-    d = os.path.join(VERIF, "seeded", name)
+    d = os.path.join(VERIF, SEEDED, name)
     os.makedirs(d, exist_ok=True)
     for f in ("patch.diff", "demo.rs", "demo.sh", "notes.md"):
         if os.path.exists(os.path.join(out, f)):
@@ -101,7 +103,7 @@ def run(name, tier, props, seed):
     """Checks a seeded change in its own scratch worktree of /repo (VERIF_REPO), so /repo itself,
     /verif/evidence and the regular build output are never touched; everything is removed afterwards."""
     import hashlib
-    d = os.path.join(VERIF, "seeded", name)
+    d = os.path.join(VERIF, SEEDED, name)
     patch = os.path.join(d, "patch.diff")
     wt = "/tmp/mw/%s" % name
     sh(["git", "worktree", "remove", "--force", wt], REPO)
@@ -160,7 +162,7 @@ def main():
         name = a[1]
         tier = a[a.index("--tier") + 1] if "--tier" in a else "quick"
         seed = int(a[a.index("--seed") + 1]) if "--seed" in a else 1
-        meta = json.load(open(os.path.join(VERIF, "seeded", name, "meta.json")))
+        meta = json.load(open(os.path.join(VERIF, SEEDED, name, "meta.json")))
         props = a[a.index("--props") + 1].split(",") if "--props" in a else [meta["breaks_property"]]
         return run(name, tier, props, seed)
     print(__doc__)
